@@ -42,6 +42,19 @@ static TriSys random_tri(Rng& g, int n, bool cyc, int flavour) {
         if (cyc) s.corner *= d[0] * d[n - 1];
         s.wellcond = false;
     }
+    if (flavour == 2 && cyc && n >= 3) {
+        // cyclic, SPD but not dominant: A = M M^T with M lower bidiagonal plus the corner entry M(0, n-1) (nonsingular M => A SPD and
+        // cyclic tridiagonal).  Half of the cases make row 0 nearly cancel against a NEGATIVE corner: a_00 + corner = m_00^2 tiny.
+        std::vector<double> dgm(n), sbm(n - 1);
+        for (auto& x : dgm) x = g.nice(0.5, 2.0) * (g.coin() ? 1 : -1);
+        for (auto& x : sbm) x = g.nice(-1.5, 1.5);
+        double c0 = g.nice(-1.5, 1.5); if (c0 == 0.0) c0 = 1.0;
+        if (g.coin()) { dgm[0] = std::ldexp(1.0, -g.range(8, 26)); c0 = -1.0; dgm[n - 1] = 1.0; }
+        for (int i = 0; i < n; i++) s.main[i] = dgm[i] * dgm[i] + (i > 0 ? sbm[i - 1] * sbm[i - 1] : c0 * c0);
+        for (int i = 0; i < n - 1; i++) s.sub[i] = sbm[i] * dgm[i];          // A(i+1, i) = M(i+1, i) * M(i, i)
+        s.corner = c0 * dgm[n - 1];                                         // A(0, n-1) = M(0, n-1) * M(n-1, n-1)
+        s.wellcond = false;
+    }
     if (flavour == 2) { // SPD but not dominant: A = L D L^T with unit bidiagonal L (non-cyclic only)
         if (!cyc) {
             std::vector<double> D(n), L(n - 1);
@@ -143,6 +156,13 @@ static int run_tri(Rng& rng) {
 // ---------------------------------------------------------------------------------------
 static int run_lu(Rng& rng) {
     const int cases = thorough() ? 400 : 60;
+    {   // a strictly dominant integer matrix whose elimination cancels a scheduled entry exactly before it is used
+        std::vector<std::tuple<int, int, double>> t{{0,0,2},{0,2,1},{1,1,2},{1,2,1},{2,2,3},{2,3,1},{3,0,2},{3,1,2},{3,2,1},{3,3,6}};
+        SparseMatrixCSR<double> M(4, 4, t); SparseLUSolver<double> lu(M);
+        std::vector<double> b{1, -2, 3, 5}, x = b; lu.solveInPlace(x.data());
+        std::printf("LUT 4 1 |"); for (auto& e : t) std::printf(" %d:%d:%s", std::get<0>(e), std::get<1>(e), hx(std::get<2>(e)).c_str());
+        std::printf(" |"); pv(b); std::printf(" |"); pv(x); std::printf(" => CHECK ok\n");
+    }
     for (int c = 0; c < cases; c++) {
         int n = (c < 6) ? c + 1 : rng.range(1, thorough() ? 40 : 24);
         double density = rng.real(0.05, 0.6);
@@ -160,9 +180,17 @@ static int run_lu(Rng& rng) {
                     stored[i][j] = 1; A[i][j] = (rng.range(0, 7) == 0) ? 0.0 : rng.nice(-2.0, 2.0); // explicit zeros
                     if (wide) A[i][j] *= std::pow(10.0, -rng.range(1, 4));
                 }
+        // every 4th case: small-integer entries with power-of-two pivot candidates, so that fill-in and stored entries cancel EXACTLY during
+        // the elimination (the discretisation matrices and the random "nice" values never do)
+        const bool integer = (c % 4 == 2) && !wide;
+        if (integer) {
+            scaled = false;
+            for (int i = 0; i < n; i++) for (int j = 0; j < n; j++) if (i != j && stored[i][j]) A[i][j] = (double)rng.range(-2, 2);
+        }
         for (int i = 0; i < n; i++) {
             double off = 0; for (int j = 0; j < n; j++) off += std::fabs(A[i][j]);
             A[i][i] = (off + rng.nice(0.25, 2.0)) * (rng.coin() ? 1.0 : -1.0); stored[i][i] = 1;
+            if (integer) { double p2 = 1.0; while (p2 <= off) p2 *= 2.0; A[i][i] = p2 * (rng.coin() ? 1.0 : -1.0); }
         }
         if (scaled) for (int i = 0; i < n; i++) { double sc = std::ldexp(1.0, wide ? rng.range(-36, 30) : rng.range(-26, 26)); for (int j = 0; j < n; j++) A[i][j] *= sc; }
         // storage order: shuffled within each row (unsorted column indices)
